@@ -179,6 +179,7 @@ for _f, _t in {"input_encoding": "Any", "strict_undefined": "Any", "default_filt
                "_source": "Any", "module_directory": "Any", "cache_impl": "Any", "_mmarker": "Any"}.items():
     CLASSES["Template"].fields[_f] = parse_ty(_t)
 CLASSES["Template"].fields["enable_loop"] = parse_ty("Any")
+CLASSES["Template"].fields["default_filters"] = parse_ty("Any")
 CLASSES["Module"].fields["render_body"] = parse_ty("Fun[render_callable]")
 GHOST("cff_calls", "Int", "calls of Template._compile_from_file")
 GHOST("cff_path", "Any", "module path handed to the most recent _compile_from_file")
@@ -222,7 +223,9 @@ C("mako.template:Template.__init__",
            ("no-module-file-without-configuration", "implies(text is None and filename is not None and module_filename is None and module_directory is None, isnone_any(G.cff_path))"),
            ("text-compiles-in-memory", "implies(text is not None, G.cff_calls == old(G.cff_calls) and G.ct_calls == old(G.ct_calls) + 1)"),
            ("source-file-is-the-given-one", "implies(text is None and filename is not None, G.cff_filename == box(filename))"),
-           ("module-id-from-uri", "implies(uri is not None and truthy(uri), self.module_id == re_sub('\\\\W', '_', uri) and self.uri == uri)")],
+           ("module-id-from-uri", "implies(uri is not None and truthy(uri), self.module_id == re_sub('\\\\W', '_', uri) and self.uri == uri)"),
+           ("the default filters are the ones given - an empty list stays empty; str only when none were given",
+            "implies(not isnone_any(default_filters), same(self.default_filters, default_filters))")],
   raises={"TemplateLookupException": {"when": "True",
                                       "ensures": [("rejected-before-any-file-is-read-or-written",
                                                    "G.cff_calls == old(G.cff_calls) and G.ct_calls == old(G.ct_calls) and G.fs_probes == old(G.fs_probes) and G.mkdirs == old(G.mkdirs) and G.compiles == old(G.compiles) and G.loads == old(G.loads)")]},
